@@ -2,7 +2,7 @@
 import math
 
 import envelope as E
-from common import compare_gen, run_model, enc, unbits, same_float, rel_close, is_real_finite
+from common import compare_gen, run_model, enc, unbits, same_float, rel_close, is_real_finite, tie_equal
 
 ID = 'C03'
 LEAN_MODULES = ['Dhlldv.Props.C03']
@@ -89,7 +89,7 @@ def correspondence(ctx):
             nfr = len(r['ims'])
             want = [r['im_x'], r['X'], r['rhox'], r['Cv_x'], r['Cv_r'], r['mu_x'], r['nu_x'], r['Rsd_x'], r['Erhg_x'], r['Erhg'], r['il']] \
                 + list(r['ims']) + list(r['dxs']) + list(r['fracs'])
-            if len(vals) != len(want) or not all(same_float(x, y) for x, y in zip(vals, want)):
+            if len(vals) != len(want) or not all(tie_equal(ctx, x, y) for x, y in zip(vals, want)):
                 ctx.mismatch('Spec.erhgGraded differs from Erhg_graded', {'slurry': p, 'Cvt_eq_Cvs': cvt, 'vls': vls, 'switches': (sf, sq)},
                              vals[:11], want[:11])
     finally:
